@@ -627,4 +627,190 @@ theorem mGcAny_deterministic (m : MddMgr) (ext : Nat → Nat) (h : MInv m) (hx :
   · intro u hu a
     rw [G'.den u hu a, G''.den u ((hmem u).mp hu) a]
 
+/-! ### every strategy for `unused.pop()` -/
+
+/-- the loop with `unused.pop()` resolved by a strategy `σ` (a function of the worklist and the
+manager) -/
+def mGcLoopBy (σ : List Int → MddMgr → Int) : Nat → List Int → MM Unit
+  | _, [] => fun m => (.ok (), m)
+  | 0, _ :: _ => fun m => (.error .fuel, m)
+  | f+1, u0 :: rest => fun m =>
+    match mGcStep (σ (u0 :: rest) m) ((u0 :: rest).erase (σ (u0 :: rest) m)) m with
+    | (.error e, m1) => (.error e, m1)
+    | (.ok work, m1) => mGcLoopBy σ f work m1
+
+/-- `collect_garbage(roots)` with the strategy `σ`; one iteration per node suffices -/
+def mCollectGarbageBy (σ : List Int → MddMgr → Int) (roots : Option (List Int)) : MM Unit := fun m =>
+  match mUnusedOf (gcRootList m roots) m with
+  | (.error e, m1) => (.error e, m1)
+  | (.ok unused, m1) =>
+    match mGcLoopBy σ (m1.tbl.succ.size + 1) (unused.erase 1) m1 with
+    | (.error e, m2) => (.error e, m2)
+    | (.ok _, m2) => (.ok (), { m2 with cache := {} })
+
+/-- for EVERY strategy that picks an element of the worklist the loop terminates normally within
+one iteration per node, and what it does is one of the runs `MGcRun` -/
+theorem mGcLoopBy_total (σ : List Int → MddMgr → Int) (hσ : ∀ w m, w ≠ [] → σ w m ∈ w)
+    (ext : Nat → Nat) : ∀ (f : Nat) (work : List Int) (m : MddMgr),
+    MInvCore m → MRefExact m ext → WorkOK m work → m.tbl.succ.size + 1 ≤ f →
+    ∃ m', mGcLoopBy σ f work m = (.ok (), m') ∧ MGcRun work m m' := by
+  intro f
+  induction f with
+  | zero => intro work m _ _ _ hf; omega
+  | succ f ih =>
+    intro work m hc hx hw hf
+    cases work with
+    | nil => exact ⟨m, rfl, MGcRun.done m⟩
+    | cons u0 rest =>
+      have hu := hσ (u0 :: rest) m (by simp)
+      obtain ⟨work1, m1, hstep, hc1, hx1, hw1, hsz⟩ := mGcRun_progress m ext hc hx _ hw _ hu
+      obtain ⟨m', hm', hrun⟩ := ih work1 m1 hc1 hx1 hw1 (by omega)
+      refine ⟨m', ?_, MGcRun.step _ _ work1 m m1 m' hu hstep hrun⟩
+      simp only [mGcLoopBy]
+      rw [hstep]
+      exact hm'
+
+/-- for EVERY strategy: `collect_garbage(roots)` returns normally, is one of the runs `MGcAny`, and
+has all the guarantees -/
+theorem mCollectGarbageBy_total (σ : List Int → MddMgr → Int) (hσ : ∀ w m, w ≠ [] → σ w m ∈ w)
+    (m : MddMgr) (ext : Nat → Nat) (h : MInv m) (hx : MRefExact m ext)
+    (roots : Option (List Int)) (hro : ∀ r, r ∈ gcRootList m roots → m.tbl.Mem r) :
+    ∃ m', mCollectGarbageBy σ roots m = (.ok (), m') ∧ MGcAny roots m m' ∧
+      GcOK m ext roots.isNone m' := by
+  have hcnt : ∀ r, r ∈ gcRootList m roots → m.ref.contains r.natAbs = true :=
+    fun r hr => h.refMem (hro r hr)
+  obtain ⟨un, hun, hnd, hent⟩ := mUnusedOf_total (gcRootList m roots) m hcnt
+  have hw := initial_work m h _ un hnd hro hent
+  obtain ⟨m2, hm2, hrun⟩ := mGcLoopBy_total σ hσ ext (m.tbl.succ.size + 1) (un.erase 1) m
+    h.core hx hw (Nat.le_refl _)
+  have hany : MGcAny roots m { m2 with cache := {} } := ⟨un, m2, hun, hrun, rfl⟩
+  refine ⟨_, ?_, hany, mGcAny_spec m ext h hx roots _ hany⟩
+  unfold mCollectGarbageBy
+  rw [hun]
+  dsimp only
+  rw [hm2]
+
+/-! ### freed numbers -/
+
+theorem mGcKids_sched : ∀ (kids work : List Int) (m : MddMgr) (r : Except Err (List Int)) (m' : MddMgr),
+    mGcKids kids work m = (r, m') → m'.sched = m.sched ∧ m'.free = m.free ∧ m'.max = m.max := by
+  intro kids
+  induction kids with
+  | nil => intro work m r m' h; simp only [mGcKids] at h; cases h; exact ⟨rfl, rfl, rfl⟩
+  | cons k rest ih =>
+    intro work m r m' h
+    unfold mGcKids at h
+    have hd : ∀ r1 m1, mDecref k m = (r1, m1) → m1.sched = m.sched ∧ m1.free = m.free ∧ m1.max = m.max := by
+      intro r1 m1 h1
+      unfold mDecref at h1
+      split at h1
+      · cases h1; exact ⟨rfl, rfl, rfl⟩
+      · split at h1 <;> (cases h1; exact ⟨rfl, rfl, rfl⟩)
+    split at h
+    · next e m1 h1 => cases h; exact hd _ _ h1
+    · next m1 h1 =>
+      obtain ⟨a, b, c⟩ := hd _ _ h1
+      split at h
+      · cases h; exact ⟨a, b, c⟩
+      · obtain ⟨a', b', c'⟩ := ih _ _ _ _ h
+        exact ⟨a'.trans a, b'.trans b, c'.trans c⟩
+
+
+/-- an iteration puts the number of the removed node into `_free` (and nothing else changes there) -/
+theorem mGcStep_free (u : Int) (work : List Int) (m : MddMgr) (w : List Int) (m' : MddMgr)
+    (h : mGcStep u work m = (.ok w, m')) :
+    m'.free = insertSorted u.toNat m.free ∧ m'.max = m.max := by
+  unfold mGcStep at h
+  split at h
+  · cases h
+  · split at h
+    · cases h
+    · split at h
+      · cases h
+      · simp only at h
+        split at h
+        · cases h
+        · split at h
+          · cases h
+          · split at h
+            · cases h
+            · next m4 hrel =>
+              have h4 : m4.free = insertSorted u.toNat m.free ∧ m4.max = m.max := by
+                unfold mRelease at hrel
+                split at hrel
+                · cases hrel
+                · split at hrel
+                  · cases hrel
+                  · split at hrel
+                    · cases hrel
+                    · split at hrel
+                      · cases hrel
+                      · cases hrel; exact ⟨rfl, rfl⟩
+              split at h
+              · cases h
+              · split at h
+                · cases h
+                · split at h
+                  · cases h
+                  · obtain ⟨_, hf, hmx⟩ := mGcKids_sched _ _ _ _ _ h
+                    exact ⟨hf.trans h4.1, hmx.trans h4.2⟩
+
+/-- whatever the order: the free list only grows, and the number of every removed node is in it -/
+theorem mGcRun_free (ext : Nat → Nat) {work : List Int} {m m' : MddMgr} (R : MGcRun work m m') :
+    MInvCore m → MRefExact m ext →
+    (∀ x, x ∈ m.free → x ∈ m'.free) ∧
+    (∀ x n, m.tbl.node? x = some n → m'.tbl.node? x = none → x ∈ m'.free) ∧
+    m'.max = m.max := by
+  induction R with
+  | done m => intro _ _; exact ⟨fun _ h => h, fun x n h1 h2 => by (rw [h1] at h2; cases h2), rfl⟩
+  | step u work work1 m m1 m' hu hstep _ ih =>
+    intro hc hx
+    obtain ⟨p, np, hup, hnode, _, hc1, hx1, _, htbl1, _⟩ := mGcStep_spec m ext hc hx u _ work1 m1 hstep
+    obtain ⟨hfree, hmax⟩ := mGcStep_free u _ m work1 m1 hstep
+    have hpn : u.toNat = p := by omega
+    rw [hpn] at hfree
+    obtain ⟨i1, i2, i3⟩ := ih hc1 hx1
+    refine ⟨?_, ?_, i3.trans hmax⟩
+    · intro x hxf
+      apply i1
+      rw [hfree, mMem_insertSorted]
+      exact Or.inr hxf
+    · intro x n hn hnone
+      by_cases hxp : x = p
+      · subst hxp
+        apply i1
+        rw [hfree, mMem_insertSorted]
+        exact Or.inl rfl
+      · apply i2 x n _ hnone
+        rw [htbl1, MTbl.node?_delNode]
+        have : ¬ p = x := fun e => hxp e.symm
+        simp [this, hn]
+
+/-- `collect_garbage`, any order: the numbers of the removed nodes are in `_free` afterwards, what
+was in `_free` stays, and `_max` is unchanged -/
+theorem mGcAny_free (m : MddMgr) (ext : Nat → Nat) (h : MInv m) (hx : MRefExact m ext)
+    (roots : Option (List Int)) (m' : MddMgr) (R : MGcAny roots m m') :
+    (∀ x, x ∈ m.free → x ∈ m'.free) ∧
+    (∀ x n, m.tbl.node? x = some n → m'.tbl.node? x = none → x ∈ m'.free) ∧
+    m'.max = m.max := by
+  obtain ⟨un, m2, _, hrun, hm'⟩ := R
+  subst hm'
+  have := mGcRun_free ext hrun h.core hx
+  exact this
+
+/-- `_allocate` hands out a number that is not above `_max` — in particular a freed one — only by
+popping it from `_free` -/
+theorem mAllocate_source (m : MddMgr) (u : Nat) (m' : MddMgr) (h : mAllocate m = (.ok u, m')) :
+    (m.free = [] ∧ u = m.max + 1 ∧ m'.max = m.max + 1 ∧ m'.free = []) ∨
+    (u ∈ m.free ∧ m'.free = m.free.erase u ∧ m'.max = m.max) := by
+  unfold mAllocate at h
+  split at h
+  · next hf => cases h; exact Or.inl ⟨hf, rfl, rfl, hf⟩
+  · next f0 tl hf =>
+    split at h
+    · cases h; exact Or.inr ⟨by rw [hf]; simp, rfl, rfl⟩
+    · split at h
+      · next hc => cases h; exact Or.inr ⟨by simpa using hc, rfl, rfl⟩
+      · cases h
+
 end DD
